@@ -100,6 +100,13 @@ def retryBudgetCmp : Option (String × String × String) := some ("retries", ">=
 
 def renewMapKey : Option String := some "r.Name"
 
+def clientPbcCalls : List (String × String × Bool) := [
+  ("Lock", "Lock", true),
+  ("TryLock", "TryLock", true),
+  ("Unlock", "Unlock", true),
+  ("Renew", "Renew", true)
+]
+
 def bodyGetTLSConfig : String := "{ useTls := false tlsConfig := &tls.Config{} if conf.TlsCert != \"\" { serverCert, err := tls.LoadX509KeyPair(conf.TlsCert, conf.TlsKey) if err != nil { return nil, fmt.Errorf(\"LoadX509KeyPair() error loading cert: %w\", err) } tlsConfig.Certificates = []tls.Certificate{serverCert} useTls = true } if conf.ClientCA != \"\" { caPem, err := os.ReadFile(conf.ClientCA) if err != nil { return nil, fmt.Errorf(\"os.ReadFile() failed to read ca cert: %w\", err) } certPool := x509.NewCertPool() if !certPool.AppendCertsFromPEM(caPem) { return nil, fmt.Errorf(\"AppendCertsFromPEM() failed to append client ca cert\") } tlsConfig.ClientCAs = certPool tlsConfig.ClientAuth = tls.RequireAndVerifyClientCert useTls = true } else if conf.ClientCertVerify { tlsConfig.ClientAuth = tls.RequireAndVerifyClientCert useTls = true } if useTls && conf.TlsCert == \"\" { return nil, fmt.Errorf(\"client TLS certificate verification requires server TLS to be configured\") } if useTls { return tlsConfig, nil } return nil, nil }"
 
 def bodyValidatePassword : String := "{ isValid := func() bool { if h.password == \"\" { return true } auth := strings.Split(r.Header.Get(\"Authorization\"), \"Basic \") if len(auth) != 2 { return false } decoded, err := base64.StdEncoding.DecodeString(auth[1]) if err != nil { return false } password := strings.SplitN(string(decoded), \":\", 2) if len(password) != 2 { return false } if password[1] == h.password { return true } return false }() if !isValid { slog.Warn( \"Invalid password from client\", \"client_addr\", r.RemoteAddr, ) w.Header().Set(\"WWW-Authenticate\", `Basic realm=\"Restricted\"`) w.WriteHeader(http.StatusUnauthorized) } return isValid }"
@@ -127,6 +134,22 @@ def bodyRestOnTimeout : String := "{ return func() { h.sessionsMtx.Lock() s, ok 
 def bodyTimerAdd : String := "{ m.timersMtx.Lock() defer m.timersMtx.Unlock() m.timers[key] = time.AfterFunc( timeout, func() { onTimeout() m.Remove(key) }, ) }"
 
 def bodyTimerRemove : String := "{ m.timersMtx.Lock() defer m.timersMtx.Unlock() stopped := true if _, ok := m.timers[key]; ok { stopped = m.timers[key].Stop() delete(m.timers, key) } return stopped }"
+
+def bodyRenewerStart : String := "{ var interval int32 if r.lockTimeoutSeconds <= 30 { interval = MinRenewSeconds } else { interval = max(r.lockTimeoutSeconds-30, MinRenewSeconds) } go func() { defer close(r.done) for { t := time.NewTimer(time.Duration(interval) * time.Second) select { case <-r.client.ctx.Done(): t.Stop() return case <-r.stop: t.Stop() return case <-t.C: select { case <-r.stop: return default: } if _, err := r.client.Renew(r.name, r.key, r.lockTimeoutSeconds); err != nil { panic(\"error renewing lock \" + r.name + \" \" + err.Error()) } } } }() }"
+
+def bodyRenewerStop : String := "{ r.stopOnce.Do(func() { close(r.stop) }) <-r.done }"
+
+def bodyClientUnlock : String := "{ c.maybeRemoveRenewer(name) r, err := rpcWithRetry( c.maxRetries, func() (*pb.UnlockResponse, error) { return c.pbc.Unlock(c.ctx, &pb.UnlockRequest{ Name: name, Key: key, }) }, ) if err != nil { return false, err } return r.Unlocked, rpcErrorToError(r.Error) }"
+
+def bodyClientClose : String := "{ c.renewMap.Range(func(k, v interface{}) bool { renewer := v.(*renewer) renewer.Stop() return true }) return c.conn.Close() }"
+
+def bodyClientRenew : String := "{ r, err := rpcWithRetry( c.maxRetries, func() (*pb.LockResponse, error) { return c.pbc.Renew(c.ctx, &pb.RenewRequest{ Name: name, Key: key, LockTimeoutSeconds: lockTimeoutSeconds, }) }, ) if err != nil { return nil, err } return &Lock{Name: name, Key: r.Key, Locked: r.Locked, client: c}, rpcErrorToError(r.Error) }"
+
+def bodyMaybeCreateRenewer : String := "{ if !r.Locked || c.noAutoRenew || lockTimeoutSeconds == 0 { return } rFresher := newRenewer(c, r.Name, r.Key, lockTimeoutSeconds) if _, loaded := c.renewMap.LoadOrStore(r.Name, rFresher); loaded { panic(\"client out of sync - lock already exists in renew map\") } }"
+
+def bodyMaybeRemoveRenewer : String := "{ if c.noAutoRenew { return } r, ok := c.renewMap.LoadAndDelete(name) if ok { r.(*renewer).Stop() } }"
+
+def bodyRpcWithRetry : String := "{ var retries int = 0 for { r, err := f() if err != nil { if st, ok := status.FromError(err); ok && st.Code() == codes.Unavailable { if retries >= maxRetries { return r, err } retries++ time.Sleep(time.Duration(RetryDelaySeconds) * time.Second) continue } else { return r, err } } else { return r, nil } } }"
 
 def restRoutes : List (String × String × String) := [
   ("ldlm.LDLM.TryLock", "post", "/v1/lock"),
